@@ -2,8 +2,8 @@
 // ("maddy --config FILE run": maddycli.Run -> maddy.Run -> moduleMain) on the text TLC rendered.
 // The child listens on its own sd_notify socket: READY=1 means moduleMain finished loading; the child
 // then reads the configured variables of the three instances of the row (reflection on the real
-// module objects, Lookup on the table), asks itself to stop (SIGTERM) and reports.  Without READY the
-// exit code and the message of maddy's command line are the outcome.
+// module objects, Lookup on the table), reports and exits.  Without READY the exit code and the
+// message of maddy's command line are the outcome.
 package loader
 
 import (
@@ -14,14 +14,12 @@ import (
 	"net"
 	"os"
 	"os/exec"
-	"os/signal"
 	"path/filepath"
 	"reflect"
 	"runtime/debug"
 	"sort"
 	"strconv"
 	"strings"
-	"syscall"
 	"testing"
 	"time"
 
@@ -199,55 +197,40 @@ func TestChild(t *testing.T) {
 	}
 	defer conn.Close()
 	os.Setenv("NOTIFY_SOCKET", sock)
-	// SIGTERM / SIGUSR1 must never take their default action: READY is sent before maddy installs its
-	// signal handler.  After READY the child pokes itself with SIGUSR1 ("reopen logs") until maddy
-	// answers RELOADING=1 - its handler is then known to be installed - and sends one SIGTERM.
-	guard := make(chan os.Signal, 64)
-	signal.Notify(guard, syscall.SIGTERM, syscall.SIGUSR1)
-	done := make(chan struct{})
+	// READY=1 is sent by moduleMain after every block was initialised: the outcome of loading is known,
+	// the child reports and leaves (maddy's shutdown path is not part of this property)
+	write := func() {
+		b, _ := json.Marshal(rep)
+		tmp := outPath + ".tmp"
+		if err := os.WriteFile(tmp, b, 0o644); err == nil {
+			os.Rename(tmp, outPath)
+		}
+	}
 	go func() {
-		defer close(done)
 		buf := make([]byte, 4096)
-		var stopPoke chan struct{}
 		for {
 			n, _, err := conn.ReadFromUnix(buf)
 			if err != nil {
 				return
 			}
-			msg := string(buf[:n])
-			switch {
-			case strings.HasPrefix(msg, "READY=1") && !rep.Ready:
+			if strings.HasPrefix(string(buf[:n]), "READY=1") {
 				rep.Ready = true
 				inspect(keys, os.Getenv("X08_CHILD_TBL"), rep)
-				stopPoke = make(chan struct{})
-				go func(stop chan struct{}) {
-					for {
-						syscall.Kill(os.Getpid(), syscall.SIGUSR1)
-						select {
-						case <-stop:
-							return
-						case <-time.After(20 * time.Millisecond):
-						}
-					}
-				}(stopPoke)
-			case strings.HasPrefix(msg, "RELOADING=1") && stopPoke != nil:
-				close(stopPoke)
-				stopPoke = nil
-				syscall.Kill(os.Getpid(), syscall.SIGTERM)
+				write()
+				os.Exit(0)
 			}
 		}
 	}()
 	var errOut bytes.Buffer
 	cli.ErrWriter = &errOut
 	os.Args = []string{"maddy", "--config", cfg, "run"}
-	rep.Code = maddycli.RunWithoutExit()
-	conn.Close()
-	<-done
-	rep.Msg = strings.TrimSpace(errOut.String())
-	b, _ := json.Marshal(rep)
-	if err := os.WriteFile(outPath, b, 0o644); err != nil {
-		t.Fatal(err)
+	code := maddycli.RunWithoutExit()
+	if rep.Ready {
+		select {} // the reporting goroutine is about to leave
 	}
+	rep.Code = code
+	rep.Msg = strings.TrimSpace(errOut.String())
+	write()
 }
 
 func runLoad(it Item, keys []string, dir string) (out LoadOut) {
